@@ -92,6 +92,8 @@ def safe(m, s, e, text, variant, lo, hi):
     num = m.lstrip('+-')
     if not ok(num, lo, hi):
         return False
+    if variant == 'IntegerSigned' and m[0] in '+-' and s > 0 and text[s - 1].isdigit():
+        return False      # documented: a signed numeral cannot match when another digit directly precedes it
     ns = s + (len(m) - len(num))
     if ns > 0 and text[ns - 1].isdigit():
         return False
@@ -449,6 +451,19 @@ def _task16(arg):
                                               f"{dctor(variant, lo, hi, mn, mx, True)}: in {t!r} reported {m!r} at {a}:{b} (preceded by {t[a - 1:a]!r})",
                                               f"p = {dctor(variant, lo, hi, mn, mx, True)}\nt = {t!r}\n"
                                               f"assert all(a == 0 or not t[a - 1].isdigit() for m, a, b in p.get_matches_and_pos(t))"))
+            # documented for include_sign=True: a signed decimal cannot match when another digit directly precedes the sign
+            if variant == 'DecimalSigned':
+                for ip in ips[:8]:
+                    for frac in fracs[1:4]:
+                        for sg2 in '+-':
+                            for L in ('5', '1.1', '12'):
+                                t = L + sg2 + ip + '.' + frac
+                                cnt['candidates'] += 1
+                                for m, a, b in p.get_matches_and_pos(t):
+                                    if m[0] in '+-' and a > 0 and t[a - 1].isdigit() and bad < 8:
+                                        bad += 1
+                                        viol.append(V(f'C16|{expr}|sign-after-digit|{t}', f"{expr}: in {t!r} reported the signed {m!r} although a digit directly precedes the sign",
+                                                      f"p = {expr}\nt = {t!r}\nassert not any(m[0] in '+-' and a > 0 and t[a - 1].isdigit() for m, a, b in p.get_matches_and_pos(t))"))
             # extensible with a prefix
             sg = {'Decimal': '', 'DecimalSigned': '+', 'PositiveDecimal': '+', 'NegativeDecimal': '-', 'UnsignedDecimal': ''}[variant]
             try:
